@@ -27,7 +27,7 @@ CLAIMED = {
    level="model_checking",
    text="TLC explores the StripStream algorithm against an adversarial inner writer - all inputs of length L x all call cuts x all placements of short writes (0..3) and Interrupted/WouldBlock/Other up to a fault budget - and shows the ideal algorithm keeps delivered = visible(consumed) while each deviation of the code (F4, F5) yields a counterexample. Every behaviour TLC explored is emitted as a script and replayed against a scripted inner writer through write, write_vectored, write_all, write! and argument-less write!; the recorded calls (return value, inner writes by pointer offset, accepted counts) are validated by the Trace_StripStream specification (observational layer I1-I4, judge state carried across calls). Seeded long inputs x random scripts likewise.",
    design="5/C06",
-   note="Trusted: spec/StripStream.tla over Strip.tla; caller protocol = resubmit tail, retry after Interrupted, stop otherwise. Open findings F5 (state not restored on Err) and F3 are reported as KNOWN-FINDING from their canonical witnesses and tolerated only in the shape described in the spec (Tainting/F5Shape, AcceptCtlLeak).",
+   note="Trusted: spec/StripStream.tla over Strip.tla; caller protocol = resubmit tail, retry after Interrupted, stop otherwise. The former findings F5 (state not restored on Err) and F3 were repaired by fix: commits; their tolerances (Tainting/F5Shape, AcceptCtlLeak) stay in the specification as switches that are off, and the canonical witnesses are replayed to show the violation would be reported again.",
    technique="TLA+ spec (StripStream) + TLC: exhaustive fault-script exploration, TLC-generated scripts replayed into StripStream, recorded calls validated by TLC"),
  "C08": dict(
    level="model_checking",
@@ -55,9 +55,9 @@ CLAIMED = {
    technique="TLA+ spec (WinconAnsi judged through VtParser+Sgr) + TLC: exhaustive script enumeration replayed into write_colored, calls validated by TLC"),
  "C18": dict(
    level="model_checking",
-   text="The platform-independent source of the legacy-console stream (crates/anstream/src/wincon.rs and fmt.rs) is compiled from the working tree into the harness. The specification WinconStream.tla = WinconExtract (VtParser + lenient Sgr) + Cap16 reduction: the bytes the console accepted, tagged with the colours of their call, must be exactly the UTF-8 text of the visible characters, in order, each once, with Cap16(fg)/Cap16(bg) of a rendition consistent with all observations; a buffer is reported consumed only if all its text was handed over; console errors reach the caller. TLC enumerates every SGR sequence of up to 2 groups (and two-run inputs with blank text) with the allowed colour pairs per character, replayed under every chunking via write_all and write; seeded grammar texts x chunkings x op mixes against reliable and faulty consoles are validated call by call by Trace_WinconStream.",
+   text="The platform-independent source of the legacy-console stream (crates/anstream/src/wincon.rs and fmt.rs) is compiled from the working tree into the harness. The specification WinconStream.tla = WinconExtract (VtParser + lenient Sgr) + Cap16 reduction: the bytes the console accepted, tagged with the colours of their call, must be exactly the UTF-8 text of the visible characters, in order, each once, with Cap16(fg)/Cap16(bg) of a rendition consistent with all observations; a buffer is reported consumed only if all its text was handed over; console errors reach the caller. TLC enumerates every SGR sequence of up to 2 groups (and two-run inputs with blank text) with the allowed colour pairs per character, replayed under every chunking via write_all and write; seeded grammar texts x chunkings x op mixes against reliable and faulty consoles, and every behaviour of the algorithm model MC_WinconStream (texts x entry points x console scripts), are validated call by call by Trace_WinconStream.",
    design="5/C18",
-   note="Trusted: WinconStream.tla/WinconExtract.tla/Sgr.tla/VtParser.tla, TLC, the stand-ins for crate::stream::{AsLockedWrite,IsTerminal}. Open finding F13 (the HACK: short console write abandons the rest, Ok(len)) is reported from its canonical witness and tolerated only in that shape.",
+   note="Trusted: WinconStream.tla/WinconExtract.tla/Sgr.tla/VtParser.tla, TLC, the stand-ins for crate::stream::{AsLockedWrite,IsTerminal}. The former finding F13 (short console write abandons the rest, Ok(len)) was repaired by a fix: commit; its tolerance (AcceptShortWriteAbandon) is a switch that is off. MC_WinconStream gives the stream's algorithm over an unreliable console as a state machine (DesignOk, Exact, ErrPrefix, Termination under weak fairness); all its behaviours are replayed on the real stream.",
    technique="TLA+ spec (WinconStream over WinconExtract) + TLC: enumerated SGR inputs replayed under all chunkings; recorded console calls validated by TLC"),
  "C20": dict(
    level="model_checking",
